@@ -42,7 +42,7 @@ def main():
         meta = json.load(open(os.path.join(src, 'meta%s.json' % k)))
         r = sh('/venv/bin/python %s %s/src' % (demo, wt))
         out['demo_clean_exit'] = r.returncode
-        r = sh('git -C %s apply %s' % (wt, diff))
+        r = sh('git -C %s apply --3way %s' % (wt, diff))
         assert r.returncode == 0, 'patch does not apply: ' + r.stdout
         r = sh('cd %s && /venv/bin/python -m pytest -q -p no:cacheprovider tests 2>&1 | tail -1' % wt)
         out['tests_with_change'] = r.stdout.strip()
